@@ -235,7 +235,7 @@ class DOK(SparseArray, NDArrayOperatorsMixin):
         """
         ar = cls(x.shape, dtype=x.dtype)
 
-        coords = np.nonzero(x)
+        coords = np.nonzero(~equivalent(x, ar.fill_value))
         data = x[coords]
 
         for c in zip(data, *coords, strict=True):
